@@ -341,7 +341,10 @@ func (e *Extractor) extractPrefixesConcat(re *syntax.Regexp, depth int) *Seq {
 		sub := re.Sub[i]
 		contribution := e.concatSubContribution(sub, depth)
 
-		if contribution == nil {
+		// An empty contribution (e.g. a case-folded literal whose expansion was
+		// given up) carries no information: like nil it ends the exact prefix -
+		// CrossForward would silently skip it and keep extending.
+		if contribution == nil || contribution.IsEmpty() {
 			// Non-expandable sub-expression (wildcard, repetition, etc.)
 			// Mark all accumulated literals as inexact and stop.
 			e.markAllInexact(acc)
@@ -350,6 +353,9 @@ func (e *Extractor) extractPrefixesConcat(re *syntax.Regexp, depth int) *Seq {
 
 		// Compute cross-product of accumulator with contribution
 		acc.CrossForward(contribution)
+		if contribution.partialCoverage {
+			acc.partialCoverage = true
+		}
 
 		// Enforce overflow limits
 		if acc.Len() > crossLimit || acc.Len() > e.config.MaxLiterals {
